@@ -208,11 +208,13 @@ def execute(sc, sim):
                 # the same tree object queried, changed in place, and queried again
                 ["build", "q", s, sc["shuffle"] + j], ["call", "gap_degree", "q"],
                 ["call", "nodefns", "q"], ["trans", "q", sc.get("edit", "root_attach"), {}],
-                ["call", "gap_degree", "q"], ["call", "nodefns", "q"]]
+                ["call", "gap_degree", "q"], ["call", "nodefns", "q"],
+                # the bracket writer handed a constituent instead of a whole sentence
+                ["build", "u", s, sc["shuffle"] + j], ["call", "subwrite", "u", sc["io_seed"] + j]]
     obs = sim.run({"sessions": [{"id": "t", "ops": ops, "on_error": "continue"}]})
     st.add_obs(obs)
     recs = obs["sessions"].get("t", [])
-    per = 20
+    per = 22
     for j, s in enumerate(AB):
         r = recs[j * per:(j + 1) * per]
         if len(r) < per:
@@ -247,6 +249,24 @@ def execute(sc, sim):
             return done(sc, st, [cm.viol("C16/discontinuity-notions-disagree", gap_degree=want,
                                          bracket_writer_refused=refused,
                                          grammar_not_contextfree=noncf, sentence=j)])
+        sw = r[21]
+        if "exc" in sw:
+            return done(sc, st, [cm.viol("C16/bracket-writer-on-constituent/raised/%s"
+                                         % sw["exc"])])
+        if sw["ok"] is not None and "ok" in r[20]:
+            nt_u = treeview.node_tokens(r[20]["ok"])
+            below = set()
+            todo = [sw["ok"][0]]
+            idx_u = treeview.index(r[20]["ok"])
+            while todo:
+                x = todo.pop()
+                below.add(x)
+                todo.extend(idx_u[x]["c"])
+            gaps = max(len(model.runs(nt_u[x])) - 1 for x in below if idx_u[x]["c"])
+            st.check("constituents_handed_to_bracket_writer")
+            if (gaps > 0) != (sw["ok"][1] == "refused"):
+                return done(sc, st, [cm.viol("C16/discontinuity-notions-disagree/constituent",
+                                             gap_degree=gaps, writer=sw["ok"][1])])
         do = r[13]
         if "exc" in r[11] or "exc" in r[12]:
             continue
